@@ -66,7 +66,7 @@ def generate(seed, tier):
                 m2.host[k] = model.host[k]       # one set of host functions, one probe log
     arity = {}
     ops = []
-    for _ in range(rc.randint(1, 6)):
+    for _ in range(rc.randint(1, 6) if rc.random() < 0.93 else rc.randint(10, 14)):
         si = ro.randrange(len(spaces))
         cur = spaces[si]
         env = {k: type_of(v) for k, v in cur.items() if not getattr(v, '_sim_kind', '').startswith('host:')}
@@ -111,6 +111,13 @@ def generate(seed, tier):
             prog = prev['prog']
         else:
             prog = g.program()
+            if ro.random() < 0.03:
+                # dynamic scoping at depth: the innermost of 35-70 recursive calls reads a parameter of the call that started it
+                dpt = ro.choice([35, 45, 70])
+                prog = ['block', [['assign', 'dn', ['lambda', ['p'], ['if', ['name', 'k9'], ['bin', '<=', ['name', 'p'], ['num', '0']],
+                                                                     ['call', 'dn', [['bin', '-', ['name', 'p'], ['num', '1']]], 'plain']]]],
+                                  ['assign', 'fd', ['lambda', ['k9', 'p'], ['call', 'dn', [['name', 'p']], 'plain']]],
+                                  ['call', 'fd', [['str', 'started-here'], ['num', str(dpt)]], 'plain']]]
             ops.append({'op': 'eval', 'prog': prog, 'style': gen.style(S['render']), 'kinds': sorted(g.kinds), 'space': si})
         out = model.run(prog, names=cur if si else None)
         if runaway(out):
